@@ -1,6 +1,8 @@
 (* Property C07 — string and numeric literals are reported exactly as written (the parts under a theorem). *)
 From Coq Require Import String Ascii List ZArith NArith Bool.
 From SDP Require Import Base PyStr Actions IntProofs.
+From SDP Require Import Actions.
+From SDP Require Parse Entity Table TableProofs TableClauseProofs.
 Import ListNotations.
 Open Scope string_scope.
 
@@ -20,3 +22,26 @@ Example C07_numeric_examples :
   int_of_string "123456789012345678901234567890" = Some 123456789012345678901234567890%Z /\
   int_of_string "12a" = None /\ int_of_string "" = None.
 Proof. vm_compute. repeat split. Qed.
+
+(* ---------- literals at the lexeme level, under the statement fragments -----------------------------------------------------------------
+   Once the scanner has cut a quoted literal out of the statement as ONE lexeme (the known findings D7 are about the text before that
+   point: the pre-processor re-spaces commas / parentheses / equals signs and mangles non-ASCII characters inside quotes), the
+   fragments report it character for character: as the column default (DEFAULT 'lit'), as the table COMMENT = 'lit' and as the
+   LOCATION 'lit'; a DEFAULT word that is a digit string is reported as that integer. *)
+Theorem C07_default_literal_verbatim : forall norm cs kw s, isnumeric s = false ->
+  Table.cs_default (Table.apply_opt norm cs (Table.ODefStr kw s)) = PStr s.
+Proof. intros norm cs kw s H. cbn [Table.apply_opt Table.cs_default]. unfold default_value. rewrite H. reflexivity. Qed.
+Print Assumptions C07_default_literal_verbatim.
+Theorem C07_clause_literal_verbatim : forall norm kw s,
+  Table.clause_value norm (Table.CLocation kw s) = PStr s /\ Table.clause_value norm (Table.CComment kw s) = PStr s.
+Proof. intros. split; reflexivity. Qed.
+Print Assumptions C07_clause_literal_verbatim.
+Theorem C07_default_number_exact : forall norm cs kw w z, isnumeric (Entity.nms norm w) = true -> int_of_string (Entity.nms norm w) = Some z ->
+  Table.cs_default (Table.apply_opt norm cs (Table.ODefWord kw w)) = PInt z.
+Proof. intros norm cs kw w z H1 H2. cbn [Table.apply_opt Table.cs_default]. unfold default_value. rewrite H1, H2. reflexivity. Qed.
+Print Assumptions C07_default_number_exact.
+(* the statements these values sit in *)
+Theorem C07_fragment_statement : forall tx norm silent, Table.wf_x norm tx = true ->
+  exists d, Table.denote_x norm tx = Ok d /\ Parse.parse_lexemes norm silent (Table.lexemes_x tx) = Ok (Some (PDict d)).
+Proof. exact TableClauseProofs.table_x_parse. Qed.
+Print Assumptions C07_fragment_statement.
